@@ -39,8 +39,9 @@ def plan(tier, seed):
         cfgs.append(dict(kind="cable", loss=loss, N=n - 1 if loss is None else n - 2, gaps=["S", 1, 2], order=0))
     # every configuration once more with long fixed workloads (state that only breaks after hundreds of packets)
     nlong = explore.add_long(cfgs, 300 if quick else 1000)
+    ndebug = explore.add_debug_variants(cfgs)      # the same with every element constructed with debug=True
     return {"cfgs": cfgs, "budget": None,
-            "bound": ("%d long fixed workloads (periodic arrival patterns); " % nlong) + ("Wire: N<=%d (lossless) / %d (loss 0.5), delays {0,1,2,3}^N, loss rates {None,0,0.5,1}; Cable: N<=%d / %d over both directions" % (n, n - 1, n - 1, n - 2))}
+            "bound": ("%d long fixed workloads (periodic arrival patterns); %d configurations repeated with debug=True; " % (nlong, ndebug)) + ("Wire: N<=%d (lossless) / %d (loss 0.5), delays {0,1,2,3}^N, loss rates {None,0,0.5,1}; Cable: N<=%d / %d over both directions" % (n, n - 1, n - 1, n - 2))}
 
 
 def execute(ch, cfg):
